@@ -12,7 +12,7 @@ import Rtp.Proofs.Sequencer
 import Rtp.Proofs.SequencerConc
 import Rtp.Proofs.Linearize
 namespace Rtp.Props.C07
-open Rtp Rtp.Model Rtp.Spec.Counter Rtp.Pred.C07 Rtp.Proofs.Sequencer Rtp.Proofs.SequencerConc
+open Rtp Rtp.Model Rtp.Model.SeqConc Rtp.Spec.Counter Rtp.Pred.C07 Rtp.Proofs.Sequencer Rtp.Proofs.SequencerConc
 
 /-- **c07_sequential.**  For every start (any fixed value; any random initial value the
     generator can return) and every program of calls, of any length: the predicate the harness
